@@ -6,6 +6,8 @@
  R9.3  `%s` conversions of the token readers never target a fixed buffer shorter than the tokenizer's line buffer
  R9.4  error branches of bool readers report failure
  R9.5  no status of a reading primitive / nested reader is dropped
+ R9.10 process-wide state of the token reader: pending line erased at open, default delimiters restored on every exit
+ R9.9  a table reader compares the size of the data with rows x columns before it reports success (c09_arrays.py)
  R9.8  counted appends leave the loop with `>=` on the announced count (c09_arrays.py)
  R9.7  fixed-size local arrays indexed under a file-derived bound are guarded on every path (c09_arrays.py)
 """
@@ -326,4 +328,6 @@ def main(tier):
     import c09_arrays
     c09_arrays.r9_7(prog, chk)
     c09_arrays.r9_8(prog, chk)
+    c09_arrays.r9_9(prog, chk)
+    c09_arrays.r9_10(prog, chk)
     return chk.finish()
